@@ -11,6 +11,11 @@ CHECKS = {
  },
 }
 CHECKS.update({
+ 'C17': {
+  'text': 'Partial (this property was first judged not applicable; bringing the statement and expression evaluators under Verus changed that). Decided: (1) syntactic census over abasic-core/src - enable_warnings is read in exactly Interpreter::warn, Interpreter::maybe_log_warning_about_undeclared_array_use and evaluate_expression_term, enable_tracing in exactly evaluate_statement and written only by the TRACE/NOTRACE arms; any new read or write site fails the census; (2) Verus: a disabled warning changes nothing at all, an enabled one appends exactly one Warning record and changes nothing else (program, variables, pending reply, state, rng, switches); (3) Verus: no statement and no expression function writes either switch (frame clause of every evaluator function). Together: the switches can influence nothing but appended Warning/Trace records.',
+  'note': 'The four-configuration equivalence itself is an argument over these three facts, not a mechanised relational proof; what the records say (which lines, which variables) is undecided. PRINT and user-function calls are assumed contracts.',
+  'technique': 'Verus frame contracts on the real gating functions + syntactic identifier census',
+ },
  'C13': {
   'text': 'Partial proof (this property was first judged not applicable; bringing Tokenizer<T: AsRef<str>> under Verus with an external-trait declaration for AsRef changed that): Tokenizer::next, chomp_next_token, chomp_leading_whitespace and chomp_one_or_two_characters are verified on their real text: every token range is [cursor after the blank chomp, cursor after the matcher), non-empty, inside the line, begins on a non-blank byte, only blanks lie between the previous cursor and its start; a tokenization error carries a position inside the line at or after the token start and stops the tokenizer; a lemma over two next() calls gives strict ordering and non-overlap. Punctuation tokens end on a non-blank byte and follow their first byte.',
   'note': 'The other matchers are assumed contracts (two of them Kani-checked, bounded). Character boundaries, end-on-non-blank for every token kind and the re-tokenization clause are undecided.',
@@ -85,7 +90,6 @@ CHECKS.update({
 NOT_APPLICABLE = {
  'C14': 'every anchored mechanism is core::fmt Display, f64 printing/parsing and the full tokenizer; neither verifier models them, a contract could only restate the round trip as an axiom',
  'C15': 'compares two process-level I/O modes of abasic-cli (clap, rustyline, std::fs, stdout); load_source_file is format!/colored glue outside both verifiers',
- 'C17': 'four-configuration relational property over whole-program runs; the gating code is interleaved with format! inside generic AsRef<str> evaluators that neither verifier can take',
  'C20': 'JSON-RPC main loop over threads (lsp-server, serde) and iterator-adapter code over SourceFileAnalyzer; UTF-16 conversion would be a contract on code that does not exist',
 }
 NOTES = 'Exit codes of bin/vcheck: 0 holds, 1 VIOLATION (line printed), 2 undecided (tool trouble: lost anchor, unsupported construct, rlimit/timeout, vacuity canary) - exit 2 is never an alarm. known_findings.json lists recorded findings and fixed defects. No hooks are committed to /repo.'
